@@ -227,7 +227,7 @@ class SubQueryLineageHolder(ColumnLineageMixin):
     ) -> None:
         target_columns = self.get_table_columns(tgt_table)
         for src_col in src_table_columns:
-            new_column = Column(src_col.raw_name)
+            new_column = Column._from_raw_name(src_col.raw_name)
             new_column.parent = tgt_table
             if new_column in target_columns or src_col.raw_name == "*":
                 continue
@@ -419,7 +419,7 @@ class SQLLineageHolder(ColumnLineageMixin):
             src_cols = []
             # check if source column exists in graph (either from subquery or from table created in prev statement)
             for parent in unresolved_col.parent_candidates:
-                src_col = Column(unresolved_col.raw_name)
+                src_col = Column._from_raw_name(unresolved_col.raw_name)
                 src_col.parent = parent
                 if g.has_edge(parent, src_col):
                     src_cols.append(src_col)
